@@ -33,7 +33,7 @@ class C15(CoordMixin, Prop):
     id = "C15"
     title = "Deadlock detection agrees with the real wait-for relation"
     fixed_prefix = 1
-    extractors = ["advance-probe"]
+    extractors = ["advance-probe", "victim-probe"]
     quick_budget = 2500
     thorough_budget = 40000
     all_branches = ["dl:none", "dl:cycle", "acq:acquired", "acq:blocked", "acq:reentrant", "acq:preempted", "rel:0",
@@ -56,8 +56,10 @@ class C15(CoordMixin, Prop):
 
     def extract(self, ctx):
         # the real CellCycleController.advance evaluated on its complete finite domain -> Operon/Gen/CoordAdvanceProbe.lean
-        from ..extract import coord_probe
-        return coord_probe.run(self.m_controller, self.m_types, core.LEAN, core.write_if_changed)
+        from ..extract import coord_probe, victim_probe
+        out = coord_probe.run(self.m_controller, self.m_types, core.LEAN, core.write_if_changed)
+        # the real Watchdog.check evaluated on a three-party ring for every strategy x priorities x creation times
+        return out + victim_probe.run(self, core.LEAN, core.write_if_changed)
 
     # --- implementation: C14's runner plus check_deadlock() recorded after every line ------------------------
     def run_impl(self, case):
